@@ -341,14 +341,20 @@ class C12(IRCheck):
                         a = t.wg(a, wg1)
                         if wg2:
                             a = t.wg(a, wg2)
-                        for ctx in ("mem", "bin", "less"):
+                        for ctx in ("mem", "bin", "less", "lessc", "lessb", "shift"):
                             if ctx == "mem":
                                 root = t.mem("m1", a, wl)
                             elif ctx == "bin":
                                 root = t.bin(rng.choice(OPS), a, t.reg("r2", 4), wl)
-                            else:
+                            elif ctx == "less":
                                 root = t.less(a, t.reg("r2", 2), a, t.const([5]), wl)
-                            envs = make_envs(rng, t.regs(), t.mems(), 4)
+                            elif ctx == "lessc":     # adapter on a compared operand, small constant on the other side
+                                root = t.less(a, t.constn(0x100 % (1 << (8 * min(wg1, 2))) or 1, min(wg1, 2)), t.const([1]), t.const([0]), wl)
+                            elif ctx == "lessb":     # adapter on the second compared operand and on a branch
+                                root = t.less(t.constn(3, 1), a, t.reg("r2", 2), a, wl)
+                            else:                    # adapter on a shift amount
+                                root = t.bin(rng.choice([2, 3]), t.reg("r2", 8), a, wl)
+                            envs = make_envs(rng, t.regs(), t.mems(), 6)
                             gs.append([case("a%d" % k, "purge", t, root, envs)])
                             gs.append([case("b%d" % k, "setwidth", t, root, envs, w=rng.choice([1, 2, 3, 4, 8, 16]))])
                             k += 1
